@@ -187,6 +187,7 @@ func decodeComp(comp *comp) (*CalendarCompRequest, error) {
 	}
 
 	req := &CalendarCompRequest{
+		Name:     comp.Name,
 		AllProps: comp.Allprop != nil,
 		AllComps: comp.Allcomp != nil,
 	}
